@@ -198,16 +198,14 @@ pub fn f9_region(s: &Sexp) -> bool {
 }
 
 /// C06: is the program inside the hypothesis of the behaviour theorems of that rule?
-/// remove_continue: no `continue` outside loops and not the F9 shape; remove_if_expression: at
-/// most one `elseif` per if-expression (F25); remove_floor_division: no `__idiv` metamethod (F26).
+/// remove_continue: no `continue` outside loops and not the F9 shape; remove_floor_division: no
+/// `__idiv` metamethod (F26). (F25 and F28 were fixed in /repo.)
 pub fn behaviour_hypothesis(model: &mut Model, model_name: &str, sexp0: &str, code: &str) -> bool {
     if model_name.starts_with("remove_continue") {
         continue_in_loops(model, sexp0) && !Sexp::parse(sexp0).map(|t| f9_region(&t)).unwrap_or(true)
-    } else if model_name.starts_with("remove_if_expression") {
-        lean_hypothesis(model, "remove_if_expression", sexp0)
     } else if model_name.starts_with("remove_floor_division") {
-        // F26 (`__idiv`) and F28 (`//=` with a user identifier named like the temporaries)
-        !code.contains("__idiv") && !(code.contains("//=") && code.contains("__DARKLUA_VAR"))
+        // F26 (`__idiv`, inherent); F25 and F28 are fixed: nothing is excused for them any more
+        !code.contains("__idiv")
     } else {
         true
     }
@@ -538,6 +536,10 @@ pub fn text_census(rule: &str, text: &str) -> usize {
 /// `KNOWN-FINDING`; no longer failing ⇒ silence.
 pub fn replay_known_findings(model: &mut Model, report: &mut Report, property: &str) {
     for entry in crate::report::known_findings(property) {
+        if entry["status"] == "fixed" {
+            // a fixed finding excuses nothing: its witness lives in corpus/ and must pass like any program
+            continue;
+        }
         let id = entry["id"].as_str().unwrap_or("?").to_owned();
         let witness = &entry["witness"];
         let code = match witness["code"].as_str() {
